@@ -309,11 +309,11 @@ class BeckeWeights:
         if sectors == 1:
             weights += self.compute_atom_weight(points, atcoords, atnums, select[0])
         else:
-            for i in select:
+            for i, sel in enumerate(select):
                 ind_start = pt_ind[i]
                 ind_end = pt_ind[i + 1]
                 weights[ind_start:ind_end] += self.compute_atom_weight(
-                    points[ind_start:ind_end], atcoords, atnums, i
+                    points[ind_start:ind_end], atcoords, atnums, sel
                 )
         return weights
 
